@@ -2,7 +2,8 @@
 # ./run.sh <Cxx> quick|thorough   -- builds the check from /verif + /repo's working tree and runs it.
 # ./run.sh replay <path>          -- re-executes a recorded witness.
 set -u
-cd /verif
+cd "$(dirname "$(readlink -f "$0")")"
+export VERIF_ROOT="$PWD"
 export GOFLAGS=-mod=mod GOPROXY=off GOSUMDB=off GOTOOLCHAIN=local
 export VERIF_SCRATCH="${VERIF_SCRATCH_BASE:-/dev/shm}/verif.$$"
 mkdir -p "$VERIF_SCRATCH"
